@@ -89,9 +89,9 @@ type Entry struct {
 // the other punctuation that real identifiers may carry and that a careless renderer could escape.
 const (
 	RoutePfx = "R&"
-	VehPfx   = "V+"
-	StopPfx  = "S<"
-	TrackPfx = "T'>"
+	VehPfx   = "V+\t"
+	StopPfx  = "S< \u00a0"
+	TrackPfx = "T'> \\"
 	sfxTail  = "+&"
 )
 
@@ -136,15 +136,21 @@ func Tm(off int) time.Time { return tm(off) }
 func ConcreteFeed(f Feed) *gtfs.Realtime {
 	r := &gtfs.Realtime{CreatedAt: tm(f.T)}
 	for _, u := range f.Ups {
+		// the start instant is written as date + time of day; every third trip suffix writes it the way late-night
+		// trips are written: the date of the day before and a start time past 24:00:00
+		date, tod := u.Start-u.Start%3600, u.Start%3600
+		if u.Sfx%3 == 2 {
+			date, tod = date-90000, tod+90000
+		}
 		t := gtfs.Trip{
 			ID: gtfs.TripID{
 				ID:           fmt.Sprintf("%06d", u.Pfx*100) + sfxName(u.Sfx),
 				RouteID:      RoutePfx + strconv.Itoa(u.Route),
 				DirectionID:  gtfs.DirectionID(u.Dir),
 				HasStartTime: true,
-				StartTime:    time.Duration(u.Start%3600) * time.Second,
+				StartTime:    time.Duration(tod) * time.Second,
 				HasStartDate: true,
-				StartDate:    tm(u.Start - u.Start%3600),
+				StartDate:    tm(date),
 			},
 			IsEntityInMessage: true,
 		}
@@ -401,8 +407,12 @@ func Gen(r *rand.Rand, nFeeds, nTrips, nStops int) Case {
 		ts = append(ts, t)
 	}
 	var c Case
+	now := 0
 	for n := 1; n <= nFeeds; n++ {
-		f := Feed{T: 10 * n}
+		if n == 1 || r.Intn(5) != 0 { // every fifth feed or so repeats the header timestamp of the feed before it
+			now += 10
+		}
+		f := Feed{T: now}
 		seen := map[Uid]bool{}
 		for _, t := range ts {
 			if r.Intn(6) == 0 { // missing from this feed
